@@ -694,9 +694,14 @@ def check_geo(ctx, rec, wl, hys):
         ctx.lens.trace(0.0, hy, wl, N, 'uniform')
         sg = ctx.lens.surface_group
         x, y = np.array(sg.x[-1, :], dtype=float), np.array(sg.y[-1, :], dtype=float)
-        if not (np.all(np.isfinite(x)) and np.all(np.isfinite(y))):
-            rec.cls('spot-non-finite-skipped')
-            return
+        fin_ = np.isfinite(x) & np.isfinite(y)
+        if not fin_.all():
+            # rays that do not reach the image are no part of the spot: its line spread is that of the arriving rays
+            if fin_.sum() < 20:
+                rec.cls('spot-almost-empty-skipped')
+                return
+            rec.cls('spot-with-lost-rays')
+            x, y = x[fin_], y[fin_]
         spots.append((x, y))
     lib = GeometricMTF(ctx.lens, fields=[(0.0, hy) for hy in hys], wavelength=wl, num_rays=N, distribution='uniform',
                        num_points=npts, scale=scale)
